@@ -246,7 +246,7 @@ public:
     void swap(NDSizeBase &other) {
         using std::swap;
         swap(dims, other.dims);
-        rank = other.rank;
+        swap(rank, other.rank);
     }
 
 
